@@ -300,7 +300,8 @@ struct Outcome
 {
   std::string route;
   char target = 'A';          // 'A', 'B', 'v', 'S' (A and B), 'x' scalar
-  bool refused = false;       // the library returned an error status or a null object
+  bool refused = false;       // the library returned a null object / nothing
+  int status = 0;             // error status returned by the library (0 = success)
   std::string exception;      // text of a caught exception
   long errors = 0;            // error messages printed during the call
   std::string errtext;
@@ -466,7 +467,9 @@ static std::vector<Route> routesOf(const OpRec& o, int p, const Regs& pre)
         if (m == nullptr) { out.refused = true; return; }
         delete g.A; g.A = m; });
     }
-    add("AMatrix::addMatInPlace", [=](Regs& g, Outcome&) { g.A->AMatrix::addMatInPlace(*g.B, cx, cy); });
+    // (element-wise assignment: the cs storage documents that it cannot create a non-zero term in place)
+    if (p != SPC)
+      add("AMatrix::addMatInPlace", [=](Regs& g, Outcome&) { g.A->AMatrix::addMatInPlace(*g.B, cx, cy); });
   }
   else if (op == "LinComb")
   {
@@ -497,11 +500,7 @@ static std::vector<Route> routesOf(const OpRec& o, int p, const Regs& pre)
       else if (p == SQG) res = MatrixFactory::prodMatMat<MatrixSquareGeneral>(g.A, g.B, ta, tb);
       else if (p == SYM) res = MatrixFactory::prodMatMat<MatrixSquareSymmetric>(g.A, g.B, ta, tb);
       else
-      {
-        setGlobalFlagEigen(p == SPE);
         res = MatrixFactory::prodMatMat<MatrixSparse>(g.A, g.B, ta, tb);
-        setGlobalFlagEigen(true);
-      }
       if (res == nullptr) { out.refused = true; return; }
       delete g.A; g.A = res; });
     if (!ta && nc == c)
@@ -529,7 +528,7 @@ static std::vector<Route> routesOf(const OpRec& o, int p, const Regs& pre)
         if (withM) res->AMatrix::prodNormMatMatInPlace(g.A, g.B, t);
         else res->AMatrix::prodNormMatVecInPlace(*g.A, vecOf(g), t);
         delete g.A; g.A = res; });
-      if (!withV)
+      if (!withV && (!withM || pre.B->isSymmetric()))
         add("MatrixSquareSymmetric::normMatrix", [=](Regs& g, Outcome&) {
           // normMatrix(y, x, T): t(Y) X Y for T = false, Y X t(Y) for T = true
           MatrixSquareSymmetric* res = new MatrixSquareSymmetric(n);
@@ -634,19 +633,19 @@ static std::vector<Route> routesOf(const OpRec& o, int p, const Regs& pre)
   }
   else if (op == "Invert")
   {
-    add("invert", [=](Regs& g, Outcome& out) { if (g.A->invert() != 0) out.refused = true; });
+    add("invert", [=](Regs& g, Outcome& out) { out.status = g.A->invert(); });
     if (p == SYM)
       add("computeGeneralizedInverse", [=](Regs& g, Outcome& out) {
         MatrixSquareSymmetric* s = dynamic_cast<MatrixSquareSymmetric*>(g.A);
         MatrixSquareSymmetric* res = new MatrixSquareSymmetric(s->getNRows());
-        if (s->computeGeneralizedInverse(*res) != 0) { out.refused = true; delete res; return; }
+        out.status = s->computeGeneralizedInverse(*res);
         delete g.A; g.A = res; });
   }
   else if (op == "Solve")
   {
     add("solve", [=](Regs& g, Outcome& out) {
       VectorDouble x(g.v.size(), 0.);
-      if (g.A->solve(g.v, x) != 0) { out.refused = true; return; }
+      out.status = g.A->solve(g.v, x);
       g.v = x; });
   }
   else if (op == "Swap")
@@ -752,8 +751,6 @@ static std::vector<Route> routesOf(const OpRec& o, int p, const Regs& pre)
   {
     int i = o.i - 1;
     add("getRow", [=](Regs& g, Outcome&) { g.v = g.A->getRow(i); });
-    if (p == SPE && r == c)
-      add("getRowAsMatrixSparse(symmetric only)", [=](Regs& g, Outcome& out) { out.refused = true; });   // documented as symmetric-only: not bound
   }
   else if (op == "GetCol")
   {
@@ -778,6 +775,28 @@ static std::vector<Route> routesOf(const OpRec& o, int p, const Regs& pre)
       add("extractDiag", [=](Regs& g, Outcome&) { g.v = asSparse(g.A)->extractDiag(1); });
   }
   return R;
+}
+
+// the registers of a storage profile always hold objects of the class of the profile: a result returned
+// in another class (e.g. MatrixRectangular::glue, prodNormMat returning a MatrixSquareGeneral) is
+// converted through the public converting constructors / triplets
+static bool isProfClass(int p, const AMatrix* a)
+{
+  switch (p)
+  {
+    case RECT: return dynamic_cast<const MatrixRectangular*>(a) != nullptr && dynamic_cast<const AMatrixSquare*>(a) == nullptr;
+    case SQG: return dynamic_cast<const MatrixSquareGeneral*>(a) != nullptr;
+    case SYM: return dynamic_cast<const MatrixSquareSymmetric*>(a) != nullptr;
+    case SPE: { const MatrixSparse* s = dynamic_cast<const MatrixSparse*>(a); return s != nullptr && s->isFlagEigen(); }
+    default: { const MatrixSparse* s = dynamic_cast<const MatrixSparse*>(a); return s != nullptr && !s->isFlagEigen(); }
+  }
+}
+static void coerce(int p, AMatrix*& a)
+{
+  if (isProfClass(p, a)) return;
+  AMatrix* b = buildFrom(p, a->getNRows(), a->getNCols(), [a](int i, int j) { return a->getValue(i, j); });
+  delete a;
+  a = b;
 }
 
 static char targetOf(const std::string& op)
@@ -939,6 +958,17 @@ static void report(const char* kind, const Node& n, const Node* pre, int p, cons
   rec["expected"] = expected;
   rec["observed"] = observed;
   if (!note.empty()) rec["note"] = Value(note);
+  // symptom: the observed matrix has lost trailing empty rows / columns (dimension = extent of the non-zero terms)
+  if (observed.kind == Value::Obj && observed.has("A") && observed.at("A").kind == Value::Arr)
+  {
+    const QMat& e = (what == "B") ? n.B : n.A;
+    const Value& oa = observed.at(what == "B" ? "B" : "A");
+    int orow = (int)oa.arr.size(), ocol = orow ? (int)oa.arr[0].arr.size() : 0;
+    int er = 0, ec = 0;
+    for (int i = 0; i < e.r; i++) for (int j = 0; j < e.c; j++) if (e.at(i, j) != 0) { er = std::max(er, i + 1); ec = std::max(ec, j + 1); }
+    if (orow != e.r || ocol != e.c)
+      rec["symptom"] = Value(std::string((orow == std::max(er, 1) || orow == e.r) && (ocol == std::max(ec, 1) || ocol == e.c) ? "dims-shrunk-to-nonzero-extent" : "wrong-dims"));
+  }
   std::string s = vj::dump(rec);
   fprintf(OUT, "%s\n", s.c_str());
   fflush(OUT);
@@ -1057,7 +1087,7 @@ static void checkReaders(const Regs& g, const Node& n, const Node* pre, int p, i
       d.m[(size_t)i * c + j] += t.getValue(k);
     }
     if (bad || !sameMat(d, e, exact)) fail("getMatrixToTriplet", dmatJson(d)); });
-  guarded("transpose().getValue", [&]() {
+  if (!isSparseProf(p)) guarded("transpose().getValue", [&]() {
     AMatrix* t = A->transpose();
     DMat d; d.r = r; d.c = c; d.m.assign((size_t)r * c, NAN);
     if (t != nullptr && t->getNRows() == c && t->getNCols() == r)
@@ -1121,6 +1151,12 @@ static Regs* step(int nodeIdx, const Node& n, const Node& pn, int p, const Regs&
       catch (...) { diff = "unreadable"; }
       if (!diff.empty()) observed = regsObserved(*g);
     }
+    if (out.exception.empty() && !out.refused && diff.empty() && out.status != 0)
+    {
+      // right values, but the call reports a failure
+      stat("disagreements");
+      report("status", n, &pn, p, routes[k].name, "status", Value(0), Value(out.status), "the call returns a non-zero error status although the result is the expected one");
+    }
     bool bad = !out.exception.empty() || out.refused || !diff.empty();
     if (bad)
     {
@@ -1143,7 +1179,7 @@ static Regs* step(int nodeIdx, const Node& n, const Node& pn, int p, const Regs&
       if (k == 0) return nullptr;   // the branch is cut for this storage
       continue;
     }
-    if (k == 0) result = g; else delete g;
+    if (k == 0) { coerce(p, g->A); coerce(p, g->B); result = g; } else delete g;
   }
   return result;
 }
@@ -1206,6 +1242,7 @@ static void inflate(int nodeIdx, const Node& n, const Node& pn)
       if (!n.pf[p]) continue;
       if (ones && isSparseProf(p) && (o.op == "AddScalar") ) {}   // all terms stored: allowed
       if (!enter(nodeIdx, p, 0, 1, kind, o.op + "/inflated")) continue;
+      setGlobalFlagEigen(p != SPC);
       Regs pre;
       pre.A = build(p, bigPre.A); pre.B = build(p, bigPre.B); pre.v = buildVec(bigPre.v);
       std::vector<Route> routes = routesOf(o, p, pre);
@@ -1269,6 +1306,7 @@ static void runRoot(int rootIdx, bool inflonly)
       if (!root.pf[p]) continue;
       if (inflonly) continue;
       if (!enter(rootIdx, p, 0, 0, 0, "build")) continue;
+      setGlobalFlagEigen(p != SPC);   // the two sparse back-ends are never mixed (documented restriction)
       Regs regs;
       regs.A = build(p, root.A); regs.B = build(p, root.B); regs.v = buildVec(root.v);
       std::string diff = compareRegs(regs, root, true);
@@ -1338,77 +1376,87 @@ static int runContained(const std::vector<int>& roots, const std::string& outPat
                         const std::function<const Node&(int)>& nodeOf)
 {
   MARK = (Marker*)mmap(nullptr, sizeof(Marker), PROT_READ | PROT_WRITE, MAP_SHARED | MAP_ANONYMOUS, -1, 0);
-  long* shared = (long*)mmap(nullptr, sizeof(long) * 4, PROT_READ | PROT_WRITE, MAP_SHARED | MAP_ANONYMOUS, -1, 0);
-  (void)shared;
-  size_t pos = 0;
-  const size_t chunk = 8;
-  int crashes = 0;
+  long* rootPos = (long*)mmap(nullptr, sizeof(long), PROT_READ | PROT_WRITE, MAP_SHARED | MAP_ANONYMOUS, -1, 0);
+  size_t startAt = 0;
+  int crashes = 0, attempts = 0;
   std::string statsPath = outPath + ".stats";
   std::map<std::string, long> total;
-  while (pos < roots.size())
+  while (startAt < roots.size())
   {
-    size_t end = std::min(roots.size(), pos + chunk);
-    int attempts = 0;
-    size_t startAt = pos;
-    while (true)
+    MARK->node = -1;
+    *rootPos = (long)startAt;
+    fflush(OUT);
+    pid_t pid = fork();
+    if (pid == 0)
     {
-      MARK->node = -1;
-      fflush(OUT);
-      pid_t pid = fork();
-      if (pid == 0)
+      FILE* real = OUT;
+      for (size_t k = startAt; k < roots.size(); k++)
       {
+        *rootPos = (long)k;
         STATS.clear();
-        for (size_t k = startAt; k < end; k++) work(roots[k]);
-        // append the statistics of this chunk
+        char* buf = nullptr; size_t len = 0;
+        OUT = open_memstream(&buf, &len);
+        work(roots[k]);
+        fclose(OUT);
+        OUT = real;
+        if (len > 0) fwrite(buf, 1, len, real);
+        fflush(real);
+        free(buf);
         FILE* sf = fopen(statsPath.c_str(), "a");
         for (auto& kv : STATS) fprintf(sf, "%s %ld\n", kv.first.c_str(), kv.second);
         fprintf(sf, "omp_max_threads %d\n", omp_get_max_threads());
         fclose(sf);
-        fflush(OUT);
-        _exit(0);
+        MARK->node = -1;
       }
-      int status = 0;
-      waitpid(pid, &status, 0);
-      if (WIFEXITED(status) && WEXITSTATUS(status) == 0) break;
-      // crash: record and retry without the marked step
-      crashes++;
-      attempts++;
-      int sig = WIFSIGNALED(status) ? WTERMSIG(status) : -WEXITSTATUS(status);
-      if (MARK->node >= 0)
-      {
-        const Node& n = nodeOf(MARK->node);
-        Value rec = Value::object();
-        rec["kind"] = Value("crash");
-        rec["id"] = Value(n.id0);
-        rec["op"] = Value(n.h.empty() ? std::string("init") : n.h.back().op);
-        rec["storage"] = Value(std::string(PROFNAME[MARK->prof]));
-        rec["class"] = Value(std::string(storageClass(MARK->prof)));
-        rec["route"] = Value(std::string(MARK->text));
-        rec["what"] = Value("crash");
-        rec["signal"] = Value(sig);
-        const QMat& ref = n.parent >= 0 ? nodeOf(n.parent).A : n.A;
-        rec["shape"] = Value(shapeClass(ref.r, ref.c));
-        rec["depth"] = Value((int)n.h.size());
-        rec["h"] = histJson(n);
-        if (MARK->phase == 1) rec["variant"] = Value(std::string(MARK->extra == 0 ? "kron J" : "kron I"));
-        if (n.parent >= 0)
-        {
-          const Node& pn = nodeOf(n.parent);
-          Value pr = Value::object();
-          pr["A"] = qmatJson(pn.A); pr["B"] = qmatJson(pn.B); pr["v"] = qvecJson(pn.v);
-          rec["pre"] = pr;
-        }
-        fprintf(OUT, "%s\n", vj::dump(rec).c_str());
-        fflush(OUT);
-        SKIP.insert(markKey(MARK->node, MARK->prof, MARK->route, MARK->phase, MARK->extra));
-      }
-      if (MARK->node < 0 || attempts > 200)
-      {
-        fprintf(stderr, "matrix_run: child died (signal %d) outside a marked step or too many crashes\n", sig);
-        return 3;
-      }
+      _exit(0);
     }
-    pos = end;
+    int status = 0;
+    waitpid(pid, &status, 0);
+    if (WIFEXITED(status) && WEXITSTATUS(status) == 0) break;
+    // crash: record it and restart at the root in progress, without the marked step
+    crashes++;
+    if ((size_t)*rootPos == startAt) attempts++; else attempts = 1;
+    startAt = (size_t)*rootPos;
+    int sig = WIFSIGNALED(status) ? WTERMSIG(status) : -WEXITSTATUS(status);
+    if (MARK->node < 0 || attempts > 300)
+    {
+      fprintf(stderr, "matrix_run: child died (signal %d) outside a marked step or too many crashes\n", sig);
+      return 3;
+    }
+    const Node& n = nodeOf(MARK->node);
+    Value rec = Value::object();
+    rec["kind"] = Value("crash");
+    rec["id"] = Value(n.id0);
+    rec["op"] = Value(n.h.empty() ? std::string("init") : n.h.back().op);
+    rec["storage"] = Value(std::string(PROFNAME[MARK->prof]));
+    rec["class"] = Value(std::string(storageClass(MARK->prof)));
+    std::string txt = MARK->text;
+    size_t slash = txt.find('/');
+    rec["route"] = Value(slash == std::string::npos ? txt : txt.substr(slash + 1));
+    rec["what"] = Value("crash");
+    rec["signal"] = Value(sig);
+    const QMat& ref = n.parent >= 0 ? nodeOf(n.parent).A : n.A;
+    rec["shape"] = Value(shapeClass(ref.r, ref.c));
+    rec["depth"] = Value((int)n.h.size());
+    if (!n.h.empty())
+    {
+      const OpRec& o = n.h.back();
+      bool tflag = (o.op == "ProdMatMat" || o.op == "MatVec" || o.op == "VecMat" || o.op.rfind("ProdNorm", 0) == 0);
+      if (tflag) rec["transpose"] = Value(o.i == 1);
+      if (o.op == "ProdMatMat") rec["transposeB"] = Value(o.j == 1);
+    }
+    rec["h"] = histJson(n);
+    if (MARK->phase == 1) rec["variant"] = Value(std::string(MARK->extra == 0 ? "kron J" : "kron I"));
+    if (n.parent >= 0)
+    {
+      const Node& pn = nodeOf(n.parent);
+      Value pr = Value::object();
+      pr["A"] = qmatJson(pn.A); pr["B"] = qmatJson(pn.B); pr["v"] = qvecJson(pn.v);
+      rec["pre"] = pr;
+    }
+    fprintf(OUT, "%s\n", vj::dump(rec).c_str());
+    fflush(OUT);
+    SKIP.insert(markKey(MARK->node, MARK->prof, MARK->route, MARK->phase, MARK->extra));
   }
   // merge statistics
   std::ifstream sf(statsPath);
